@@ -18,15 +18,16 @@ Local Open Scope N_scope.
 (* ---- expressions ---------------------------------------------------------------------------- *)
 (* Just enough structure for what C14 depends on: the constant None, string constants (with the result
    of CPython's ast.parse on their value, an oracle: None = SyntaxError / not one expression),
-   subscripts, names and attributes (for the Literal[...] test); every other node is a tag + children
-   in ast.iter_child_nodes order. *)
+   subscripts, names and attributes (for the Literal[...] test); every other node is a tag + its fields
+   that hold nodes, in ast.iter_fields order (a field holding a list of nodes is an EList). *)
 Inductive expr : Type :=
 | ENoneLit
 | EStr (sid : N) (parse : option expr)
 | ESub (v s : expr)
 | EName (id : text)
 | EAttr (v : expr) (attr : text)
-| ENode (tag : N) (kids : list expr).
+| ENode (tag : N) (kids : list expr)     (* kids: the node-valued fields, in order; a list-valued field is one EList kid *)
+| EList (l : list expr).                 (* not a node: the value of a list-valued field *)
 
 Fixpoint text_eqb (a b : text) : bool :=
   match a, b with
@@ -399,7 +400,8 @@ Inductive unstrung : expr -> expr -> Prop :=
 | U_sub_lit : forall v v' s, unstrung v v' -> is_literal_head v' = true -> unstrung (ESub v s) (ESub v' s)
 | U_sub : forall v v' s s', unstrung v v' -> is_literal_head v' = false -> unstrung s s' ->
                             unstrung (ESub v s) (ESub v' s')
-| U_node : forall t ks ks', Forall2 unstrung ks ks' -> unstrung (ENode t ks) (ENode t ks').
+| U_node : forall t ks ks', Forall2 unstrung ks ks' -> unstrung (ENode t ks) (ENode t ks')
+| U_list : forall l l', Forall2 unstrung l l' -> unstrung (EList l) (EList l').
 
 (* bad_string e : some string constant that would have to be replaced does not spell one expression *)
 Inductive bad_string : expr -> Prop :=
@@ -408,4 +410,5 @@ Inductive bad_string : expr -> Prop :=
 | B_attr : forall v a, bad_string v -> bad_string (EAttr v a)
 | B_sub_v : forall v s, bad_string v -> bad_string (ESub v s)
 | B_sub_s : forall v v' s, unstrung v v' -> is_literal_head v' = false -> bad_string s -> bad_string (ESub v s)
-| B_node : forall t ks, Exists bad_string ks -> bad_string (ENode t ks).
+| B_node : forall t ks, Exists bad_string ks -> bad_string (ENode t ks)
+| B_list : forall l, Exists bad_string l -> bad_string (EList l).
